@@ -17,7 +17,7 @@ case "$ID" in
   C08) RUNS=40000;   MAXLEN=400 ;;
   C09) RUNS=20000;   MAXLEN=600 ;;
   C11) RUNS=300000;  MAXLEN=260 ;;
-  C12) RUNS=240000; MAXLEN=400 ;;
+  C12) RUNS=2000000; MAXLEN=64 ;;
   C14) RUNS=200000;  MAXLEN=2000 ;;
   C15) RUNS=400000;  MAXLEN=4000 ;;
   C17) RUNS=600000; MAXLEN=200 ;;
